@@ -239,6 +239,34 @@ fn eval_cli_n(list: &[Entry], columns: &[usize], nm: &Naming, scratch: &Scratch)
     let path = scratch.file(".samples", file_str_n(list, nm).as_bytes());
     let b = run_sfs(&["create", "--samples-file", path.to_str().unwrap()], Stdin::Bytes(&vcf), scratch);
     let _ = std::fs::remove_file(path);
+    if nm.id == "plain" {
+        // the same lines with other line endings: CRLF, no final newline, both, mixed
+        let lf = file_str_n(list, nm);
+        let crlf = lf.replace('\n', "\r\n");
+        let mut mixed = String::new();
+        for (i, l) in lf.lines().enumerate() {
+            mixed.push_str(l);
+            mixed.push_str(if i % 2 == 0 { "\r\n" } else { "\n" });
+        }
+        let variants: [(&str, String); 4] = [
+            ("crlf", crlf.clone()),
+            ("no-final-newline", lf.trim_end_matches('\n').to_string()),
+            ("crlf-no-final-newline", crlf.trim_end_matches("\r\n").to_string()),
+            ("mixed-endings", mixed),
+        ];
+        for (what, text) in variants {
+            let path = scratch.file(".samples", text.as_bytes());
+            let c = run_sfs(&["create", "--samples-file", path.to_str().unwrap()], Stdin::Bytes(&vcf), scratch);
+            let _ = std::fs::remove_file(path);
+            if c.stdout != a.stdout || c.code != a.code {
+                v.push((
+                    format!("C09|cli|samples-file-line-endings|{what}"),
+                    format!("--samples '{spelled}' gives {:?} but the same lines as a samples file with {what} give {} {:?} {}", a.stdout_str(), c.status_str(), c.stdout_str(), c.stderr_str().trim()),
+                    case_jn(list, columns, nm),
+                ));
+            }
+        }
+    }
     if b.stdout != a.stdout || b.code != a.code {
         v.push((
             format!("C09|cli|samples-file-differs|{}{tag}", list_class(list)),
@@ -473,9 +501,9 @@ pub fn run(tier: Tier) -> i32 {
     }
     rep.part(Part {
         name: "cli: --samples and --samples-file".into(),
-        evaluations: 2 * cj.len() as u64,
+        evaluations: 6 * cj.len() as u64,
         nontrivial: 2 * cj.iter().filter(|c| nontrivial(&c.0)).count() as u64,
-        note: "every list of 3 samples (and a slice / all of 4) as --samples and as --samples-file, input columns permuted".into(),
+        note: "every list of 3 samples (and a slice / all of 4) as --samples and as --samples-file (LF, CRLF, no final newline, CRLF without final newline, mixed endings), input columns permuted".into(),
         exhaustive: true,
         extra: vec![],
     });
